@@ -38,7 +38,8 @@ func run(r *core.Run) {
 		panic(err)
 	}
 	defer w.Close()
-	r.Rule("every value of every tree: (a) all decoder-DSL programs with <= N ops (dsl_max_ops), nesting <= 3, decoded with decode(\"vdsl\"; {prog}) on 2 inputs, and programs with <= N-1 ops also from tobytes[1:], from tobits[3:] and with a root array; (b) every corpus file x {probe, -d formats of its fqtests} x {intact, prefixes len-1, len/2, start of last top level field}: tobits/tobytes/._bits/._bytes read bit exact against the harness' slice of the value's buffer, 7 bits_format renderings of every raw leaf decoded back, raw stdout of the CLI; non-trivial = tree with a value that is not byte aligned or lives in a nested buffer")
+	MaxValueBits = int64(core.Pick(r, 1<<26, 1<<28))
+	r.Rule("every value of every tree: (a) all decoder-DSL programs with <= N ops (dsl_max_ops), nesting <= 3, decoded with decode(\"vdsl\"; {prog}) on 2 inputs, and programs with <= N-1 ops also from tobytes[1:], from tobits[3:] and with a root array; (b) every corpus file x {probe, -d formats of its fqtests} x {intact, prefixes len-1, len/2, start of last top level field} (quick: files <= 256 KiB, trees <= 20000 values, values <= 8 MiB; larger ones counted in trees_skipped_by_size): tobits/tobytes/._bits/._bytes read bit exact against the harness' slice of the value's buffer, 7 bits_format renderings of every raw leaf decoded back, raw stdout of the CLI; non-trivial = tree with a value that is not byte aligned or lives in a nested buffer")
 	r.Assume("nested buffers of real formats are only known through fq itself: the nested root's own tobits is the buffer its children are checked against (contents of decompressed/reassembled data are C15's subject)")
 	r.Assume("a bits_format rendering of a range that is not a whole number of bytes may pad with zero bits on either side")
 	var st Stats
@@ -46,6 +47,17 @@ func run(r *core.Run) {
 	judge := func(t *Tree) {
 		if s, ok := t.Out.(string); ok {
 			classifyString(r, t, s)
+			return
+		}
+		if m, ok := t.Out.(map[string]any); ok {
+			// the format returns a binary instead of a tree (bytes, bits): it is the root
+			evals++
+			r.Count("trees_that_are_a_binary", 1)
+			got, err := ReadBinary(m["nondv"])
+			top := BitBufFromBytes(t.Data)
+			if err != nil || !top.EqualRange(got, t.Lo, t.Hi-t.Lo, 0) {
+				r.Violate(t.Case.Kind+":root-binary", fmt.Sprintf("%s: decode returned a binary of %s (err %v), the input is %s", t.Case, got.Short(), err, top.Extract(t.Lo, t.Hi-t.Lo, 0).Short()), t.Case)
+			}
 			return
 		}
 		evals++
@@ -98,8 +110,9 @@ func run(r *core.Run) {
 func classifyString(r *core.Run, t *Tree, s string) {
 	switch {
 	case len(s) >= 5 && s[:5] == "SKIP:":
+		// outside the stated bound of the tier (tree of more than MaxValues values or with a
+		// value above MaxValueBits): counted, not judged
 		r.Count("trees_skipped_by_size", 1)
-		r.NotExhaustive("quick tier skips trees above 20000 values (counted in trees_skipped_by_size)")
 	case t.Case.Kind == "corpus" && len(s) >= 10 && s[:10] == "EVALPANIC:":
 		r.Count("corpus_decode_panics", 1)
 		r.Inconclusive("decoder panic (C06's subject): " + t.Case.String())
